@@ -508,6 +508,59 @@ fn chain(op: BinOp, depth: usize, left: bool, leaves: &[E], pick: u64) -> E {
     e
 }
 
+// ---- model self-check against Python integers (DESIGN §3.1) ----------------------------------------
+
+fn e_json(e: &E) -> serde_json::Value {
+    match e {
+        E::Num(s) => json!(["num", s]),
+        E::Bool(b) => json!(["bool", b]),
+        E::Str(s) => json!(["str", s]),
+        E::Var(s) => json!(["var", s]),
+        E::Un(op, a) => json!(["un", if *op == UnOp::Neg { "neg" } else { "not" }, e_json(a)]),
+        E::Bin(op, a, b) => json!(["bin", op.text(), e_json(a), e_json(b)]),
+        E::Tern(a, b, c) => json!(["tern", e_json(a), e_json(b), e_json(c)]),
+        E::Slice(a, b, c) => json!(["slice", e_json(a), e_json(b), e_json(c)]),
+        E::Short(a, b) => json!(["short", e_json(a), e_json(b)]),
+        E::Call(f, args) => json!(["call", f, args.iter().map(e_json).collect::<Vec<_>>()]),
+        E::Block(args) => json!(["block", args.iter().map(e_json).collect::<Vec<_>>()]),
+    }
+}
+
+fn r_json(r: &RRes) -> serde_json::Value {
+    match r {
+        Ok(RVal::Int(z, s)) => json!({"int": z.to_string(), "size": s}),
+        Ok(RVal::Bool(b)) => json!({"bool": b}),
+        Ok(RVal::Str(t, e)) => json!({"str": [t, e.name()]}),
+        Ok(RVal::Void) => json!("void"),
+        Err(RErr::Error(_)) | Err(RErr::Constraint) => json!({"error": 1}),
+        Err(RErr::Unspec(_)) => json!({"unspec": 1}),
+    }
+}
+
+/// dump (tree, reference result) pairs and have pyref/expr_ref.py re-derive them with Python ints
+fn python_selfcheck(ctx: &Ctx, trees: &[&E]) -> Result<serde_json::Value, String> {
+    use std::io::Write;
+    let dir = std::env::var("VERIF_SCRATCH").unwrap_or_else(|_| format!("{}/.build/scratch", ctx.verif));
+    std::fs::create_dir_all(&dir).map_err(|e| e.to_string())?;
+    let path = format!("{}/c05_selfcheck_{}.jsonl", dir, std::process::id());
+    {
+        let mut f = std::io::BufWriter::new(std::fs::File::create(&path).map_err(|e| e.to_string())?);
+        let env = Env::new();
+        for e in trees {
+            let line = json!({"e": e_json(e), "r": r_json(&eval(e, &env))});
+            writeln!(f, "{}", line).map_err(|e| e.to_string())?;
+        }
+    }
+    let script = format!("{}/pyref/expr_ref.py", ctx.verif);
+    let out = std::process::Command::new("python3").arg(&script).arg(&path).output().map_err(|e| format!("python3: {}", e))?;
+    let _ = std::fs::remove_file(&path);
+    let stdout = String::from_utf8_lossy(&out.stdout).to_string();
+    if !out.status.success() {
+        return Err(format!("reference evaluator disagrees with the Python-integer re-derivation: {} {}", stdout.trim(), String::from_utf8_lossy(&out.stderr).chars().take(1500).collect::<String>()));
+    }
+    serde_json::from_str(stdout.trim()).map_err(|e| format!("bad self-check output: {} ({})", stdout, e))
+}
+
 pub fn run(ctx: &Ctx) -> Report {
     let mut rep = Report::new(
         "model_checking",
@@ -590,6 +643,18 @@ pub fn run(ctx: &Ctx) -> Report {
             judge_tree(&e, "d3-one-deep-child", json!(i), l)
         }));
         levels.push(json!({"family": "depth 3, one depth-2 child in every position, 3 leaves", "trees": n3}));
+    }
+    // model self-check: complete depth<=1 family + every 23rd depth-2 tree + all chains
+    {
+        let mut sel: Vec<&E> = lf.iter().collect();
+        sel.extend(d1_full.iter());
+        let strided: Vec<E> = (0..nb).step_by(23).filter_map(|i| one_deep_child(&d1_small, &ls, i)).collect();
+        sel.extend(strided.iter());
+        sel.extend(chains.iter());
+        match python_selfcheck(ctx, &sel) {
+            Ok(v) => rep.extra("model_selfcheck_python_integers", v),
+            Err(e) => rep.machinery_error = Some(e),
+        }
     }
     rep.extra("levels", json!(levels));
     rep.extra("depth_completed", json!(if ctx.thorough { "all trees of depth<=1 (23 leaves); all depth-2 trees with one non-leaf child and all binary depth-2 trees (7 leaves); depth-3 trees with a single depth-2 spine (3 leaves); chains to depth 6. The quantifier's depth 6 over everything is not reachable." } else { "all trees of depth<=1 (23 leaves); all depth-2 trees with one non-leaf child (7 leaves), which contains every ordered operator pair; chains to depth 6" }));
